@@ -20,6 +20,17 @@ def main(path):
     from pyvc.native_ops import Ctx, ReplayPrecondition
     for m in rp["contract_modules"]:
         importlib.import_module("contracts." + m)
+    if rp.get("native_search"):
+        ns = rp["native_search"]
+        os.environ["VERIF_SEED"] = str(ns["seed"])
+        import io, contextlib
+        buf = io.StringIO()
+        with contextlib.redirect_stdout(buf):
+            fuzz(",".join(rp["contract_modules"]), rp["harness"], ns["trials"], ns["seed"], exact=True)
+        doc = json.loads(buf.getvalue().strip().splitlines()[-1])
+        print(json.dumps({"reproduced": bool(doc["failed"]), "failed_clauses": sorted(doc["failed"]), "obligation": rp["obligation"],
+                          "how": "seeded native search re-run (%d trials, seed %d)" % (ns["trials"], ns["seed"]), "first_failing_trial": doc.get("first_failing_trial")}))
+        return 0
     hs = [h for h in api.REGISTRY["harness"] if h.name == rp["harness"]]
     if not hs:
         print(json.dumps({"reproduced": False, "error": "harness not found"}))
@@ -74,7 +85,7 @@ def main(path):
     return 0
 
 
-def fuzz(mods, hname, trials, seed):
+def fuzz(mods, hname, trials, seed, exact=False):
     """CPython differential: the contract text evaluated natively on random inputs (must hold on the tree)"""
     here = os.path.dirname(os.path.dirname(os.path.abspath(__file__)))
     sys.path.insert(0, here)
@@ -90,7 +101,7 @@ def fuzz(mods, hname, trials, seed):
         if hname.startswith("@"):
             if hname[1:] not in h.prop:
                 continue
-        elif hname not in h.name:
+        elif (hname != h.name) if exact else (hname not in h.name):
             continue
         for t in range(trials):
             case = h.cases[t % len(h.cases)]
@@ -114,6 +125,7 @@ def fuzz(mods, hname, trials, seed):
             for n, ok in ctx.results:
                 if not ok:
                     res["failed"][n] = res["failed"].get(n, 0) + 1
+                    res.setdefault("first_failing_trial", {}).setdefault(n, {"trial": t, "case": repr(case), "notes": [str(x)[:300] for x in ctx.notes[-2:]]})
     res["errors"] = res["errors"][:3]
     print(json.dumps(res))
     return 0
@@ -122,4 +134,6 @@ def fuzz(mods, hname, trials, seed):
 if __name__ == "__main__":
     if sys.argv[1] == "--fuzz":
         sys.exit(fuzz(sys.argv[2], sys.argv[3], int(sys.argv[4]), int(os.environ.get("VERIF_SEED", "0") or 0)))
+    if sys.argv[1] == "--fuzz-exact":
+        sys.exit(fuzz(sys.argv[2], sys.argv[3], int(sys.argv[4]), int(os.environ.get("VERIF_SEED", "0") or 0), exact=True))
     sys.exit(main(sys.argv[1]))
